@@ -8,7 +8,7 @@
    generated table of shared-memory types.  What decides the property for the real code is the
    correspondence run by ./check C14: the metamorphic relocation of every relocatable
    structure of /repo (harness/g3/c14). *)
-From V Require Import model.Base model.RingQueue model.RelPtr proofs.RelPtrProofs.
+From V Require Import model.Base model.RingQueue model.RelPtr proofs.RelPtrProofs proofs.RelPtrQueue.
 From V Require Import model.ShmTypes gen.ShmTypes proofs.RelPtrTable.
 From Coq Require Import String ZifyBool.
 Open Scope Z_scope.
@@ -109,6 +109,15 @@ Theorem c14_model_reloc_whole : forall ops h delta m m',
   forall x, fst (iq_run (h + delta) m' ops) (x + delta) = fst (iq_run h m ops) x.
 Proof. exact iq_reloc_whole. Qed.
 Print Assumptions c14_model_reloc_whole.
+
+(* the side condition of c14_model_reloc holds for EVERY operation list on an initialised queue
+   image whose payload lies right behind the header: all accesses of the unrelocated run stay
+   inside the block [h, h + 5 + capacity), for every capacity (0 included), base address and
+   initial memory content *)
+Theorem c14_queue_image_in_bounds : forall (c : N) h m0 ops,
+  safe_run (in_block h (HDR_WORDS + Z.of_N c)) iq_prog h (iq_init h (h + HDR_WORDS) c m0) ops.
+Proof. exact iq_safe_run_init. Qed.
+Print Assumptions c14_queue_image_in_bounds.
 
 (* not vacuous: a capacity-2 queue image at 100 (payload right behind the 5 header words, block
    [100, 107)), three pushes, the block copied 4112 further into poisoned memory, then
